@@ -221,6 +221,10 @@ def _elem_src(out, el, spelling):
     for kind, idx in layout:
         if kind == "a":
             space, aname, quote, parts = el["attrs"][idx]
+            if quote is None:
+                # an attribute written without a value
+                out.add(space + aname)
+                continue
             out.add(space + aname + "=" + quote)
             _parts_src(out, parts, lambda s: enc_attr(s, quote), "attr",
                        "'" if quote == '"' else '"')
